@@ -108,6 +108,7 @@ type Machine struct {
 	notes     []string
 	asciiAssumed bool
 	initNotes    []string
+	envVars      []*Term
 	intrCache    map[*ssa.Function]Intrinsic
 	StubsUsed    map[string]bool
 	FuncsEncoded map[string]bool
@@ -580,8 +581,10 @@ func (m *Machine) visitInstr(fr *frame, instr ssa.Instruction) continuation {
 		*addr = m.zero(deref(instr.Type()))
 
 	case *ssa.MakeSlice:
-		ln := m.concretizeInt(fr.get(instr.Len).(*Term), true, "make len")
-		cp := m.concretizeInt(fr.get(instr.Cap).(*Term), true, "make cap")
+		_, lsigned, _ := intInfo(instr.Len.Type())
+		ln := m.concretizeAlloc(fr.get(instr.Len).(*Term), lsigned, "make len")
+		_, csigned, _ := intInfo(instr.Cap.Type())
+		cp := m.concretizeAlloc(fr.get(instr.Cap).(*Term), csigned, "make cap")
 		if ln < 0 || ln > int64(m.P.MaxAlloc) {
 			if ln < 0 {
 				m.runtimePanic("makeslice: len out of range")
